@@ -563,6 +563,45 @@ PROPS = {
     ),
 }
 
+# Tie by translation (Kanal/TieCode.lean): which "generated code = fine-grained model" theorems each property rests on
+_T_BASE = ["translation_complete", "translated_functions"]
+_T_INTERNAL = ["next_send_eq", "next_recv_eq", "push_send_eq", "push_recv_eq", "terminate_signals_eq", "cancel_loop", "cancel_send_eq",
+               "cancel_recv_eq", "exists_loop", "send_exists_eq", "recv_exists_eq"]
+_T_SEND = ["try_send", "try_send_option", "try_send_realtime", "try_send_option_realtime", "send", "send_timeout", "send_option_timeout", "poll_send"]
+_T_RECV = ["try_recv", "try_recv_realtime", "recv", "recv_timeout", "poll_recv", "drain_queue_loop", "drain_senders_loop", "drain_into"]
+_T_FUT = ["drop_send_fut", "drop_recv_fut", "poll_send", "poll_recv"]
+_T_DROPS = ["drop_sender", "drop_async_sender", "drop_receiver", "drop_async_receiver"]
+_T_CLONES = ["clone_sender", "clone_async_sender", "sender_clone_async", "async_sender_clone_sync", "clone_receiver", "clone_async_receiver",
+             "receiver_clone_async", "async_receiver_clone_sync"]
+_T_OBS = ["is_bounded", "len", "is_empty", "is_full", "capacity", "receiver_count", "sender_count", "is_closed", "is_disconnected_send",
+          "is_disconnected_recv", "is_terminated"]
+_T_TIMED = ["send_timeout", "send_option_timeout", "recv_timeout"]
+_T_ALL = _T_INTERNAL + _T_SEND + _T_RECV + _T_FUT + _T_DROPS + _T_CLONES + _T_OBS + ["close"]
+TIE_CODE = {
+    "C01": _T_INTERNAL + _T_SEND + _T_RECV + _T_FUT + _T_DROPS + ["close"],
+    "C02": _T_INTERNAL + _T_SEND + _T_RECV + _T_FUT,
+    "C03": _T_ALL,
+    "C04": _T_INTERNAL + _T_SEND + _T_RECV + _T_FUT,
+    "C05": _T_INTERNAL + _T_SEND + _T_FUT + _T_DROPS + ["close", "recv", "recv_timeout", "drain_into"],
+    "C06": _T_INTERNAL + _T_SEND + _T_RECV + _T_FUT + _T_DROPS + ["close"],
+    "C07": _T_INTERNAL + _T_TIMED + _T_FUT,
+    "C08": _T_INTERNAL + _T_SEND + _T_RECV + ["is_full", "len", "capacity", "is_bounded"],
+    "C09": _T_ALL,
+    "C10": _T_INTERNAL + _T_SEND + _T_RECV + _T_OBS + ["close"],
+    "C11": _T_INTERNAL + _T_SEND + _T_RECV + _T_DROPS + _T_CLONES + ["is_disconnected_send", "is_disconnected_recv", "is_terminated"],
+    "C12": _T_DROPS + _T_CLONES + ["sender_count", "receiver_count", "close", "is_closed", "terminate_signals_eq"],
+    "C13": _T_INTERNAL + _T_TIMED,
+    "C14": _T_INTERNAL + ["try_send", "try_send_option", "try_send_realtime", "try_send_option_realtime", "try_recv", "try_recv_realtime",
+                          "drain_queue_loop", "drain_senders_loop", "drain_into"],
+    "C15": _T_INTERNAL + _T_FUT,
+    "C16": _T_INTERNAL + _T_FUT,
+    "C18": _T_ALL,
+    "C19": _T_INTERNAL + ["drain_queue_loop", "drain_senders_loop", "drain_into"],
+}
+
 for _pid, _spec in PROPS.items():
     if _spec.get("conc") is not None:
         _spec["conc"] = with_windows(_pid, _spec["conc"])
+    if _pid in TIE_CODE:
+        _spec["tie_code"] = sorted(set(_T_BASE + TIE_CODE[_pid]), key=(_T_BASE + _T_ALL).index)
+        _spec["lean_targets"] = list(_spec.get("lean_targets", [])) + ["Kanal.TieCode"]
